@@ -1,4 +1,4 @@
-\* Model checking of the contract on the intended design (quirk constants FALSE), durations in focus (thorough: the whole scale, one operation deeper).  VIEW hides hist and nops.
+\* Model checking of the contract on the intended design (quirk constants FALSE), durations in focus (thorough: the whole scale).  VIEW hides hist.
 SPECIFICATION Spec
 CONSTANTS
   DBs = {"d1"}
@@ -24,6 +24,7 @@ CONSTANTS
   DropKeepsDefault = FALSE
   RenameKeepsDefault = FALSE
   HalfYearIsLong = FALSE
+  RenameAcceptsEmpty = FALSE
 INVARIANTS Inv_Names Inv_ShardGroups Inv_Default Inv_Durations Inv_Outcomes
-VIEW View
+VIEW ViewN
 CHECK_DEADLOCK FALSE
